@@ -31,6 +31,7 @@ def must_see(tier):
     for impl in ('c', 'py'):
         for e in MUST:
             m['%s:%s' % (impl, e)] = 1
+        m[impl + ':query-on-ghost-tree'] = 2000
     return m
 
 
@@ -161,6 +162,25 @@ def check_container(fam, kind, impl, ls, rng, rec, quick):
     shape = walker.shape_class(w) if w is not None else ('leaf', min(len(keys), 4))
     if w is not None and not w.embedded and w.single_child_root and w.height >= 2:
         rec.ev(impl + ':single_interior_child_root')
+    # every third tree is stored in a MiniDB and swept before (half of) the
+    # queries: a range search then starts from ghost nodes, as it does on a
+    # tree that has just been opened from a database
+    conn = None
+    if is_tree and w is not None and not w.inline_nonroot and keys and \
+            rng.random() < 0.34 and getattr(c, '_p_jar', None) is None:
+        from .. import minidb
+        try:
+            conn = minidb.Connection(minidb.Storage(), impl)
+            conn.add(c)
+            conn.commit()
+            rec.ev(impl + ':ghost-tree')
+        except Exception:
+            conn = None
+
+    def sweep():
+        if conn is not None and rng.random() < .5:
+            conn.cache.minimize()
+            rec.ev(impl + ':query-on-ghost-tree')
     gaps = [k for k in ls.g.universe if k not in m._keys()]
     bounds = [_OMIT, None] + keys + gaps
     if fam.kc == 'O' and None in bounds[2:]:
@@ -221,6 +241,7 @@ def check_container(fam, kind, impl, ls, rng, rec, quick):
                 method = rng.choice(methods)
                 args, kw = build_args(mn, mx, emin, emax, rng)
                 rec.journal(repr((ls.describe(), ls.log, method, args, kw)))
+                sweep()
                 ro = call(c, method, args, kw)
                 mo = call(m, method, args, kw)
                 rec.evaluations += 1
@@ -268,6 +289,7 @@ def check_container(fam, kind, impl, ls, rng, rec, quick):
     for b in bounds:
         for method in ('minKey', 'maxKey'):
             args = () if b is _OMIT else (b,)
+            sweep()
             ro = call(c, method, args)
             mo = call(m, method, args)
             rec.evaluations += 1
